@@ -50,6 +50,12 @@ def run(M, rep, tier, only=None):
                   technique="stateless-handle classification (see C02.R7)")
 
     # ---------------------------------------------------------------- R1
+    # (composed exploration: callee-internal decisions are merged by outcome, the storage events and their call stacks stay)
+    rctx = Ctx(M, sig_mode="full", coarse=False)
+    rctx.cfg.sig_keep = lambda e: e.kind in ("layer", "raw")
+    tc = rctx.member("DataView", "_transform_coordinates")
+    if tc is not None:
+        rctx.cfg.opaque[tc.qual] = ("py", "tuple")      # the index transformation (C06.R2) reads no data
     for cn, name in READ_MEMBERS:
         f = ctx.member(cn, name)
         if f is None:
@@ -61,7 +67,7 @@ def run(M, rep, tier, only=None):
         bad = None
         nread = 0
         try:
-            paths = ctx.paths(f, cn, max_paths=8000)
+            paths = rctx.paths(f, cn, max_paths=8000)
         except Budget:
             continue
         for p in paths:
